@@ -96,3 +96,30 @@ V('C03', 'c03v-gt-minus-one', [(OBJ, "return self.id >= 0xff000000", "return sel
 V('C03', 'c03v-nested-if', [(MSG, "if self.obj == conn.wl_display() and self.name == 'delete_id' and len(self.args) > 0:\n            first_arg = self.args[0]\n            assert isinstance(first_arg, Arg.Int)\n            self.destroyed_obj = conn.retrieve_object(first_arg.value, -1, None)\n            self.destroyed_obj.destroy(self.timestamp)",
    "if self.name == 'delete_id' and self.obj == conn.wl_display():\n            if len(self.args) > 0:\n                first_arg = self.args[0]\n                assert isinstance(first_arg, Arg.Int)\n                self.destroyed_obj = conn.retrieve_object(first_arg.value, -1, None)\n                self.destroyed_obj.destroy(self.timestamp)")])
 V('C03', 'c03v-destroyed-is-not-none', [(MSG, "        destroyed = ''\n        if self.destroyed_obj:", "        destroyed = ''\n        if self.destroyed_obj is not None:")])
+
+# ---- C04 -----------------------------------------------------------------------------------------
+CMG = 'core/connection_manager.py'
+LIG = 'core/letter_id_generator.py'
+M('C04', 'c04-db-class-attr', [(CI, "class ConnectionImpl(Connection.Sink, Connection):\n", "class ConnectionImpl(Connection.Sink, Connection):\n    shared_db = {}\n"),
+                               (CI, "        self.db = {1: [self.display]}", "        self.db = ConnectionImpl.shared_db\n        self.db[1] = [self.display]")], 'C04.1')
+M('C04', 'c04-route-to-latest', [(CMG, "        connection = self.open_connections.get(connection_id)\n        assert connection, 'Message", "        connection = self.connection_list[-1] if self.connection_list else None\n        assert connection, 'Message")], 'C04.2')
+M('C04', 'c04-no-close-on-reopen', [(CMG, "        self.close_connection(time, connection_id)\n        name =", "        name =")], 'C04.4')
+M('C04', 'c04-reuse-connection-on-reopen', [(CMG, "        connection = ConnectionImpl(time, name, is_server)\n", "        connection = self.connection_list[-1] if self.connection_list else ConnectionImpl(time, name, is_server)\n")], 'C04')
+M('C04', 'c04-name-post-increment', [(LIG, "        value = self.index\n        self.index += 1\n", "        self.index += 1\n        value = self.index\n")], 'C04.3')
+M('C04', 'c04-name-skip', [(LIG, "        self.index += 1\n        return", "        self.index += 2\n        return")], 'C04.3')
+M('C04', 'c04-closed-dropped-from-list', [(CMG, "            # Connection will still be in connection list\n", "            self.connection_list.remove(connection)\n")], 'C04.4')
+M('C04', 'c04-close-keeps-registered', [(CMG, "            del self.open_connections[connection_id]\n", "")], 'C04')
+M('C04', 'c04-parser-shared-known', [(PARSE, "class Parser:\n", "class Parser:\n    seen = set()\n"),
+                                     (PARSE, "        self.known_connections: Set[str] = set()", "        self.known_connections: Set[str] = Parser.seen")], 'C04.1')
+M('C04', 'c04-open-every-message', [(PARSE, "        if not conn_id in self.known_connections:\n            self.known_connections.add(conn_id)", "        if True:\n            self.known_connections.add(conn_id)")], 'C04.6')
+M('C04', 'c04-forward-only-new', [(PARSE, "            self.sink.open_connection(self.last_time, conn_id, is_server)\n        self.sink.message(conn_id, msg)", "            self.sink.open_connection(self.last_time, conn_id, is_server)\n            self.sink.message(conn_id, msg)")], 'C04.6')
+M('C04', 'c04-role-inverted', [(PARSE, "                is_server = not msg.sent", "                is_server = msg.sent")], 'C04.6')
+M('C04', 'c04-cleanup-first-only', [(PARSE, "        for conn_id in self.known_connections:\n            self.sink.close_connection(self.last_time, conn_id)", "        for conn_id in self.known_connections:\n            self.sink.close_connection(self.last_time, conn_id)\n            break")], 'C04.6', accept_analysis_error=True)
+M('C04', 'c04-no-cleanup', [(PARSE, "    parser.parse_all(input_file)\n    parser.cleanup()", "    parser.parse_all(input_file)")], 'C04.6')
+M('C04', 'c04-global-last-obj', [(CI, "        generation = len(self.db[obj_id])\n", "        generation = len(self.db[obj_id])\n        wl.Message.last_created = obj_id\n")], 'C04.1')
+M('C04', 'c04-mutable-default', [(CI, "    def create_object(self, time: float, parent: wl.ObjectBase, obj_id: int, type_name: str) -> wl.ObjectBase:", "    def create_object(self, time: float, parent: wl.ObjectBase, obj_id: int, type_name: str, seen=[]) -> wl.ObjectBase:")], 'C04.1')
+M('C04', 'c04-close-twice', [(CMG, "            connection.close(time)\n", "            connection.close(time)\n            connection.close(time)\n")], 'C04')
+V('C04', 'c04v-pop-form', [(CMG, "        connection = self.open_connections.get(connection_id)\n        if connection:\n            del self.open_connections[connection_id]\n", "        connection = self.open_connections.pop(connection_id, None)\n        if connection:\n")])
+V('C04', 'c04v-in-form', [(PARSE, "        if not conn_id in self.known_connections:", "        if conn_id not in self.known_connections:")])
+V('C04', 'c04v-early-return-style', [(CMG, "        connection = self.open_connections.get(connection_id)\n        if connection:\n            del self.open_connections[connection_id]\n            # Connection will still be in connection list\n            connection.close(time)",
+                                       "        connection = self.open_connections.get(connection_id)\n        if not connection:\n            return\n        del self.open_connections[connection_id]\n        connection.close(time)")])
